@@ -607,13 +607,16 @@ func fix128BigIntToUFix64(
 	bigInt *big.Int,
 ) UFix64Value {
 
-	if bigInt.Cmp(fixedpoint.UFix64TypeMaxScaledTo128) > 0 {
-		panic(&OverflowError{})
-	} else if bigInt.Cmp(fixedpoint.UFix64TypeMinScaledTo128) < 0 {
-		panic(&UnderflowError{})
-	}
+	// Truncate the excess fractional digits toward zero first,
+	// then check that the result fits into the target type.
+	bigInt = bigInt.Quo(bigInt, fixedpoint.Fix64ToFix128FactorAsBigInt)
 
-	bigInt = bigInt.Div(bigInt, fixedpoint.Fix64ToFix128FactorAsBigInt)
+	if !bigInt.IsUint64() {
+		if bigInt.Sign() < 0 {
+			panic(&UnderflowError{})
+		}
+		panic(&OverflowError{})
+	}
 
 	return NewUFix64Value(
 		memoryGauge,
